@@ -258,3 +258,27 @@ Proof.
   - cbn [rev app b_line kvs]. constructor; [apply line_in_dom; assumption|constructor].
   - exact Hd.
 Qed.
+
+(* cylinderize with its documented defaults: without a support the new axis is parametrised over (0, 1)
+   (NOT over (z0, z1)): z = z0 + t (z1 - z0); without any argument z = t *)
+Lemma cylinderize_defaults_l : forall f z0 z1 xs t,
+  0 <= t -> t <= 1 -> Forall2 in_dom (kvs f) (rev xs) ->
+  call_val (b_cylinderize_default_support f z0 z1) (xs ++ [t]) (nc f) = z0 + t * (z1 - z0)
+  /\ call_val (b_cylinderize_defaults f) (xs ++ [t]) (nc f) = t
+  /\ forall c, (c < nc f)%nat ->
+       call_val (b_cylinderize_default_support f z0 z1) (xs ++ [t]) c = call_val f xs c
+       /\ call_val (b_cylinderize_defaults f) (xs ++ [t]) c = call_val f xs c.
+Proof.
+  intros f z0 z1 xs t H0 H1 Hd.
+  assert (L : (0:Qc) < 1) by (qc2q; lra).
+  unfold b_cylinderize_default_support, b_cylinderize_defaults.
+  repeat split.
+  - rewrite (cylinderize_spec_l f z0 z1 0 1 xs t (nc f) L H0 H1 Hd).
+    rewrite Nat.ltb_irrefl, Nat.eqb_refl. field. qc2q. lra.
+  - rewrite (cylinderize_spec_l f 0 1 0 1 xs t (nc f) L H0 H1 Hd).
+    rewrite Nat.ltb_irrefl, Nat.eqb_refl. field. qc2q. lra.
+  - rewrite (cylinderize_spec_l f z0 z1 0 1 xs t c L H0 H1 Hd).
+    assert (E : (c <? nc f)%nat = true) by (apply Nat.ltb_lt; assumption). rewrite E. reflexivity.
+  - rewrite (cylinderize_spec_l f 0 1 0 1 xs t c L H0 H1 Hd).
+    assert (E : (c <? nc f)%nat = true) by (apply Nat.ltb_lt; assumption). rewrite E. reflexivity.
+Qed.
